@@ -65,7 +65,6 @@ func zzH_C03_tftphistory() {
 	}
 }
 
-
 // zzUDPHistory: the differential of tftp-history for any datagram service.
 func zzUDPHistory(mk func(rec *zzTRec) zzUDPService, draw func() []byte) {
 	probe := draw()
